@@ -1,6 +1,6 @@
 (* C09 -- failures surface only as InverterError, with a correct consecutive-failure count. *)
 From Coq Require Import List Bool Arith.
-From GW Require Import Proto ProtoEvolves ProtoProps ProtoNoExc FailCount FailCountProofs.
+From GW Require Import Proto ProtoEvolves ProtoProps ProtoNoExc FailCount FailCountProofs Callbacks CallbackGen CallbackRefine.
 Import ListNotations.
 
 (* the count carried by the RequestFailedException of a failing request = failed requests since the last successful one
@@ -29,9 +29,18 @@ Proof. exact no_exception_in_loop_callbacks. Qed.
 Theorem C09_loop_exception_is_expressible : snd (error_received (init UDP false 1)) = [ALoopExc].
 Proof. exact (eq_refl : snd (error_received (init UDP false 1)) = [ALoopExc]). Qed.
 
+(* the model's error_received IS the current source of error_received of both protocol classes (translated on this run) *)
+Theorem C09_udp_error_received_is_the_model : forall s l, l_arg l = XOSError -> runm udp_error_received s l = error_received s.
+Proof. exact udp_error_received_refined. Qed.
+
+Theorem C09_tcp_error_received_is_the_model : forall s l, l_arg l = XOSError -> runm tcp_error_received s l = error_received s.
+Proof. exact tcp_error_received_refined. Qed.
+
 Print Assumptions C09_reported_count.
 Print Assumptions C09_first_failure_after_success_reports_one.
 Print Assumptions C09_exceptions_are_mapped.
 Print Assumptions C09_reported_outcome_is_the_mapped_one.
 Print Assumptions C09_no_exception_in_loop_callbacks.
 Print Assumptions C09_loop_exception_is_expressible.
+Print Assumptions C09_udp_error_received_is_the_model.
+Print Assumptions C09_tcp_error_received_is_the_model.
